@@ -63,27 +63,22 @@ func (s *MultipartRequest) UnmarshalBinary(data []byte) error {
 	n += 2
 	n += 4 // for padding
 
-	var req util.Message
 	switch s.Type {
 	case MultipartType_Aggregate:
-		req = s.Body.(*AggregateStatsRequest)
-	case MultipartType_Desc:
-		break
+		s.Body = NewAggregateStatsRequest()
 	case MultipartType_Flow:
-		req = s.Body.(*FlowStatsRequest)
+		s.Body = NewFlowStatsRequest()
 	case MultipartType_Port:
-		req = s.Body.(*PortStatsRequest)
-	case MultipartType_Table:
-		break
+		s.Body = NewPortStatsRequest()
 	case MultipartType_Queue:
-		req = s.Body.(*QueueStatsRequest)
-	case MultipartType_Experimenter:
-		break
-	}
-	if req == nil {
+		s.Body = NewQueueStatsRequest()
+	case MultipartType_Desc, MultipartType_Table:
+		// these requests have no body
+		return nil
+	default:
 		return fmt.Errorf("unsupported MultipartRequest type: %d", s.Type)
 	}
-	return err
+	return s.Body.UnmarshalBinary(data[n:])
 }
 
 // ofp_multipart_reply 1.3
